@@ -216,9 +216,26 @@ def strategy_datastore_op():
 def strategy_datastore():
   from hypothesis import strategies as st
   ops = strategy_datastore_op()
+  # second opening: every kind of update, then writes that fail (and roll the
+  # connection back), then reads - an update that was acknowledged stays
+  after_updates = [
+      ['create_study', 'o0', 's0'], ['create_trial', 'o0', 's0', 1],
+      ['create_sop', 'o0', 's0', 'w1', 1], ['create_eop', 'o0', 's0', 1],
+      # each update is followed at once by a write that fails and rolls back
+      ['update_eop', 'o0', 's0', 1, True], ['create_study', 'o0', 's1'],
+      ['get_eop', 'o0', 's0', 1],
+      ['update_sop', 'o0', 's0', 'w1', 1, True],
+      ['create_trial', 'o0', 's0', 1], ['get_sop', 'o0', 's0', 'w1', 1],
+      ['update_trial', 'o0', 's0', 1, 'SUCCEEDED'],
+      ['create_study', 'o0', 's0'], ['get_trial', 'o0', 's0', 1],
+      ['update_study', 'o0', 's0', 'INACTIVE'],
+      ['create_trial', 'o0', 's0', 1], ['load_study', 'o0', 's0']]
   return st.fixed_dictionaries({
-      'ops': st.lists(ops, min_size=6, max_size=40).map(
-          lambda l: [['create_study', 'o0', 's0']] + l)})
+      'ops': st.tuples(st.sampled_from([[['create_study', 'o0', 's0']],
+                                        [['create_study', 'o0', 's0']],
+                                        after_updates]),
+                       st.lists(ops, min_size=6, max_size=40)).map(
+                           lambda t: t[0] + t[1])})
 
 
 def dense_sop(op, res_set):
